@@ -41,13 +41,15 @@ pub struct Plan {
     pub fail_at_byte: Option<(usize, u8)>,
     /// repeat the last action of `acts` for ever (used for 1-byte chunking)
     pub repeat_last: bool,
+    /// the final flush() fails
+    pub fail_flush: bool,
 }
 impl Plan {
     pub fn none() -> Plan {
         Plan::default()
     }
     pub fn every(a: Act) -> Plan {
-        Plan { acts: vec![a], fail_at_byte: None, repeat_last: true }
+        Plan { acts: vec![a], fail_at_byte: None, repeat_last: true, fail_flush: false }
     }
     fn act(&self, call: usize) -> Act {
         if call < self.acts.len() {
@@ -69,13 +71,15 @@ pub struct Tap {
     pub calls: usize,
     pub budget_exceeded: bool,
     pub keep_log: bool,
+    /// number of bytes accepted when the first failure (hard error, Ok(0), failed flush) was reported
+    pub accepted_at_first_failure: Option<usize>,
 }
 impl Tap {
     pub fn new() -> Tap {
         Tap::with_plan(Plan::none())
     }
     pub fn with_plan(plan: Plan) -> Tap {
-        Tap { data: Vec::new(), log: Vec::new(), plan, calls: 0, budget_exceeded: false, keep_log: true }
+        Tap { data: Vec::new(), log: Vec::new(), plan, calls: 0, budget_exceeded: false, keep_log: true, accepted_at_first_failure: None }
     }
     /// lengths of the successful non-empty write calls
     pub fn write_lens(&self) -> Vec<usize> {
@@ -120,6 +124,14 @@ impl Write for Tap {
         if self.keep_log {
             self.log.push(Ev { op: 'w', req: buf.len(), res: code(&r) });
         }
+        let failed = match &r {
+            Ok(0) => !buf.is_empty(),
+            Ok(_) => false,
+            Err(e) => e.kind() != ErrorKind::Interrupted,
+        };
+        if failed && self.accepted_at_first_failure.is_none() {
+            self.accepted_at_first_failure = Some(self.data.len());
+        }
         let n = r?;
         self.data.extend_from_slice(&buf[..n]);
         Ok(n)
@@ -128,8 +140,23 @@ impl Write for Tap {
         if self.keep_log {
             self.log.push(Ev { op: 'f', req: 0, res: 0 });
         }
+        if self.plan.fail_flush {
+            if self.accepted_at_first_failure.is_none() {
+                self.accepted_at_first_failure = Some(self.data.len());
+            }
+            if self.keep_log {
+                self.log.last_mut().unwrap().res = -1;
+            }
+            return Err(io::Error::new(ErrorKind::Other, "injected flush fault"));
+        }
         if let Some((at, kind)) = self.plan.fail_at_byte {
             if self.data.len() >= at {
+                if self.accepted_at_first_failure.is_none() {
+                    self.accepted_at_first_failure = Some(self.data.len());
+                }
+                if self.keep_log {
+                    self.log.last_mut().unwrap().res = -1 - kind as i64;
+                }
                 return Err(io::Error::new(KINDS[kind as usize], "injected fault"));
             }
         }
